@@ -18,6 +18,10 @@ class Undecided(Exception):
     pass
 
 
+_CMP_FUNCS = {"operator.le": "cmp_le", "operator.lt": "cmp_lt", "operator.ge": "cmp_ge", "operator.gt": "cmp_gt", "operator.eq": "cmp_eq", "operator.ne": "cmp_ne",
+              "numpy.less_equal": "cmp_le", "numpy.less": "cmp_lt", "numpy.greater_equal": "cmp_ge", "numpy.greater": "cmp_gt", "numpy.equal": "cmp_eq",
+              "numpy.not_equal": "cmp_ne"}
+
 FUNCS = {
     "numpy.mean": "mean", "numpy.nanmean": "nanmean", "numpy.sum": "sum", "numpy.nansum": "nansum",
     "numpy.ma.sum": "masum", "numpy.std": "std", "numpy.var": "var", "numpy.sqrt": "sqrt",
@@ -185,7 +189,7 @@ class Evaluator(object):
         CLIM_OPTIONS = {"-c": "subtract", "-C": "divide"} is read by value."""
         assigns = getattr(self.module, "assigns", None)
         tree = getattr(self.module, "tree", None)
-        if tree is None or not name.isupper() and not (name.startswith("_") and name[1:].replace("_", "").isupper()):
+        if tree is None or not name.isupper() and not name.startswith("_"):
             return None
         cache = self.__dict__.setdefault("_modconst", {})
         if name in cache:
@@ -194,10 +198,27 @@ class Evaluator(object):
         defs = [st for st in tree.body if isinstance(st, ast.Assign) and any(isinstance(t, ast.Name) and t.id == name for t in st.targets)]
         if len(defs) != 1 or any(isinstance(n, ast.Global) and name in n.names for n in ast.walk(tree)):
             return None
-        try:
-            ast.literal_eval(defs[0].value)
-        except (ValueError, SyntaxError, TypeError, MemoryError, RecursionError):
+        aliases = getattr(self.module, "aliases", {})
+
+        def table_literal(n):
+            # literals, and dotted names of imported modules (operator.lt, np.less_equal) as entries of a dispatch table
+            if isinstance(n, ast.Constant):
+                return True
+            if isinstance(n, (ast.Tuple, ast.List, ast.Set)):
+                return all(table_literal(e) for e in n.elts)
+            if isinstance(n, ast.Dict):
+                return all(k is not None and table_literal(k) for k in n.keys) and all(table_literal(v_) for v_ in n.values)
+            if isinstance(n, ast.UnaryOp) and isinstance(n.op, (ast.USub, ast.UAdd)):
+                return isinstance(n.operand, ast.Constant)
+            if isinstance(n, ast.Attribute):
+                d_ = dotted(n)
+                return d_ is not None and d_.split(".")[0] in aliases
+            return False
+        if not table_literal(defs[0].value):
             return None
+        if any(isinstance(n, (ast.Assign, ast.AugAssign)) and n is not defs[0] and any(isinstance(t, ast.Subscript) and isinstance(t.value, ast.Name) and t.value.id == name
+               for t in (n.targets if isinstance(n, ast.Assign) else [n.target])) for n in ast.walk(tree)):
+            return None          # the table is modified somewhere
         v = self.ev(defs[0].value, Path({}, []))
         if isinstance(v, list) and all(isinstance(x, Rat) for x in v):
             v = form.apply("pylist", [tuple(v)])
@@ -463,6 +484,8 @@ class Evaluator(object):
                 path.env[tgt] = list(path.env[tgt]) + [args[0]]
                 self._event("assign", path, node, name=tgt, value=path.env[tgt])
                 return Rat.sym("None")
+        if rname in _CMP_FUNCS and len(args) == 2 and not kwargs and all(isinstance(a, Rat) for a in args):
+            return form.apply(_CMP_FUNCS[rname], args)
         if rname in FUNCS:
             f = FUNCS[rname]
             if f == "len" and len(args) == 1 and isinstance(args[0], Rat):
